@@ -20,7 +20,7 @@ ANCHORS = ["TrajectoryPrediction._create_occupancy_set", "GoalRegion.is_reached"
            "LaneletNetwork.__getstate__", "ProtobufFileWriter.write_to_file", "XMLFileWriter.write_to_file",
            "MPRenderer.draw_scenario", "MPRenderer.draw_lanelet_network", "Scenario.occupancies_at_time_step",
            "LaneletNetwork.find_lanelet_by_position", "LaneletNetwork.map_obstacles_to_lanelets"]
-REQUIRED = ["op.occupancy_at_time", "op.state_at_time", "op.occupancies_at_time_step", "op.find_lanelet_by_position",
+REQUIRED = ["draw.with-sign-symbols", "op.occupancy_at_time", "op.state_at_time", "op.occupancies_at_time_step", "op.find_lanelet_by_position",
             "op.find_lanelet_by_shape", "op.map_obstacles_to_lanelets", "op.light_state", "op.is_reached",
             "op.goal_reached", "op.eq", "op.hash", "op.copy", "op.deepcopy", "op.pickle", "op.str", "op.draw",
             "op.export_xml", "op.export_pb", "state-without-orientation", "goal-lanelets.dict",
@@ -56,6 +56,7 @@ def run(ctx):
     from vf.checks._rt import fixtures
     from vf.gen.scenarios import ScenarioGen
     from vf.oracle import structure as S
+    draw_count = [0]
 
     def snapshot(sc, pps):
         return {"scenario": S.snap_scenario(sc, derived=True), "pps": S.snap_pps(pps, derived=True)}
@@ -241,6 +242,14 @@ def run(ctx):
                 rnd.draw_params.time_end = rnd.draw_params.time_begin + rng.choice([0, 3, 10])
                 rnd.draw_params.dynamic_obstacle.draw_icon = rng.random() < 0.3
                 rnd.draw_params.dynamic_obstacle.trajectory.draw_trajectory = rng.random() < 0.7
+                draw_count[0] += 1
+                if draw_count[0] % 2 == 1:
+                    # the sign symbols (with their additional values: speed limits in the displayed unit) are off by default
+                    rnd.draw_params.traffic_sign.draw_traffic_signs = True
+                    rnd.draw_params.lanelet_network.traffic_sign.draw_traffic_signs = True
+                    rnd.draw_params.traffic_sign.speed_limit_unit = ["auto", "kmh", "mph", "ms"][(draw_count[0] // 2) % 4]
+                    rnd.draw_params.lanelet_network.traffic_sign.speed_limit_unit = rnd.draw_params.traffic_sign.speed_limit_unit
+                    ctx.feature("draw.with-sign-symbols")
                 sc.draw(rnd)
                 pps.draw(rnd)
                 rnd.render()
